@@ -109,8 +109,10 @@ func (r Ring) DivRoundByLastModulusNTT(p0, buff, p1 Poly) {
 	}
 }
 
-// DivRoundByLastModulus divides (rounded) the polynomial by its last modulus. The input must be in the NTT domain.
+// DivRoundByLastModulus divides (rounded) the polynomial by its last modulus. The input must be outside of the NTT domain.
 // Output poly level must be equal or one less than input level.
+// WARNING: p0 is used as scratch space and is modified (its coefficients are centered in place and are not
+// reduced afterwards); callers that still need p0 must pass a copy.
 func (r Ring) DivRoundByLastModulus(p0, p1 Poly) {
 
 	level := r.level
@@ -158,6 +160,7 @@ func (r Ring) DivRoundByLastModulusManyNTT(nbRescales int, p0, buff, p1 Poly) {
 
 // DivRoundByLastModulusMany divides (rounded) sequentially nbRescales times the polynomial by its last modulus.
 // Output poly level must be equal or nbRescales less than input level.
+// WARNING: if nbRescales > 0, p0 is used as scratch space and is modified (see [Ring.DivRoundByLastModulus]).
 func (r Ring) DivRoundByLastModulusMany(nbRescales int, p0, buff, p1 Poly) {
 
 	if nbRescales == 0 {
